@@ -232,6 +232,13 @@ def run(ctx, res):
     # R3 right-nulled lengths
     rid3 = res.rule("C03-R3", "right-nulled lengths: Reduce(p, len) offered exactly at positions >= rn_len; the reducer walks exactly "
                     "`length` edges; a reduction starts at a Node iff its length is 0 (all construction sites)", floor=4)
+    # ... and rn_len itself: the right-to-left scan over the symbols that derive EMPTY (decided by T-R10, shared with C04) -
+    # a production whose right-nulled length is too long loses its right-nulled reductions, and with them sentences and trees
+    from . import tbl
+    rid3b = res.rule("C03-R3b", "right-nulled lengths (shares T-R10): computed only for LALR_RN, right to left, one step for every "
+                     "trailing symbol whose FIRST set contains EMPTY and for nothing else; each item carries the length of its own "
+                     "production", floor=3)
+    tbl.r10_rn(F, res, rid3b)
     from . import c02
     sub = report.Result("C03", ctx.tier)
     c02.r1_reduce_cells(F, sub)
